@@ -1733,6 +1733,8 @@ func stRandomHistory(r *mrand.Rand) string {
 // RunC18: random and systematic histories against the reference model.
 func RunC18(c *core.Ctx) {
 	registerStoreKinds(c)
+	registerTokenKind(c)
+	doTokenCases(c)
 	c.Rep.Rule = "a case is one history of store operations; the implementation's result items must equal the reference model's item by item. " +
 		"generators: systematic per-field scenarios (isolation, restart, invalidation, overwrite, foreign-protocol token, every value shape), every bad-token " +
 		"class, voucher and blob scenarios incl. expiry boundary; random histories of all operations over 3-9 tokens. " +
@@ -1914,6 +1916,8 @@ func RunC18(c *core.Ctx) {
 		}
 	}
 	c.Note("random part: %.1fs", time.Since(t1).Seconds())
+	// --- every key exchange suite x cipher suite: the stored session works after it was read back (store_more.go)
+	stxMatrix(c)
 	if n := stOpenCount.Load(); n > 0 && stOpCount.Load() > 0 {
 		c.Note("timing: %d database opens, %.1f ms each; %d operations (incl. restarts), %.2f ms each", n, float64(stOpenNs.Load())/float64(n)/1e6,
 			stOpCount.Load(), float64(stOpNs.Load())/float64(stOpCount.Load())/1e6)
